@@ -10,7 +10,6 @@ use binrw::{BinRead, BinWrite};
 use std::collections::HashMap;
 use std::io::BufWriter;
 use std::io::Cursor;
-use std::io::Read;
 
 // FIXME: unclear what this is
 const UNKNOWN_FLAG: u32 = 1_000_000;
@@ -229,10 +228,13 @@ impl GearSets {
 
         let header = DatHeader::read(&mut cursor).ok()?;
 
-        let mut buffer = vec![0; header.content_size as usize - 1];
-        cursor.read_exact(&mut buffer).ok()?;
+        // content_size comes from the file: no unchecked subtraction, no allocation before
+        // the bytes are known to be there
+        let content_size = (header.content_size as usize).checked_sub(1)?;
+        let start = cursor.position() as usize;
+        let encoded = buffer.get(start..start.checked_add(content_size)?)?;
 
-        let decoded = buffer.iter().map(|x| *x ^ GEARSET_KEY).collect::<Vec<_>>();
+        let decoded = encoded.iter().map(|x| *x ^ GEARSET_KEY).collect::<Vec<_>>();
         let mut cursor = Cursor::new(decoded);
 
         GearSets::read(&mut cursor).ok()
